@@ -68,6 +68,7 @@ pub const STAGES: &[&str] = &[
     "subset_font",                   // 25
     "cff2 charstring: draw",         // 26
     "capacity family: cff hinted draw", // 27
+    "colour gradient family: paint", // 28
 ];
 
 /// Called by drivers immediately before a call into the code under test.
